@@ -312,6 +312,80 @@ func TestVerifC18(t *testing.T) {
 		return
 	}
 
+	// ---- E: expiry.  The wrapping token's TTL runs out (stored lease times moved two
+	// hours back, restart, due leases handled) after every prefix of non-consuming calls:
+	// from then on nobody obtains the payload, the token is refused and no record of it or
+	// of its payload remains.
+	if os.Getenv("VERIF_PART") == "" || os.Getenv("VERIF_PART") == "E" {
+		ecount := 0
+		for _, wk := range []string{"secret", "list", "login"} {
+			for _, pre := range [][]string{nil, {"lookup"}, {"rewrap"}, {"lookup", "rewrap"}, {"rewrap", "rewrap"}} {
+				ecount++
+				if !vout.Mine(ecount) {
+					continue
+				}
+				st := get(wk)
+				s := Boot(t, st.img)
+				toks := []string{st.wrapTok}
+				for _, k := range pre {
+					r := c18Do(s, st, k, toks[len(toks)-1])
+					if r.newTok != "" {
+						toks = append(toks, r.newTok)
+					}
+					if r.disclosed {
+						res.Violate("c18:expiry:non-consuming-call-disclosed-payload", fmt.Sprintf("%s %v: %s returned the payload", wk, pre, k), nil)
+					}
+				}
+				if err := c05Age(s, 2*time.Hour); err != nil {
+					t.Fatalf("harness: %v", err)
+				}
+				img2 := s.Image()
+				s.Close()
+				s2, err := BootData(t, img2.Data, img2)
+				if err != nil {
+					t.Fatalf("harness: restart: %v", err)
+				}
+				s2.Drain()
+				res.Add("executions", 1)
+				res.Add("expiry_runs", 1)
+				art := map[string]interface{}{"wrap": wk, "before_expiry": pre}
+				for _, tk := range toks {
+					for _, k := range []string{"lookup", "unwrap1", "unwrap3", "cubby", "rewrap"} {
+						r := c18Do(s2, st, k, tk)
+						if r.disclosed {
+							res.Violate("c18:expiry:payload-disclosed-after-expiry", fmt.Sprintf("%v: %s with an expired wrapping token returned the payload", art, k), art)
+						}
+						if r.ok && (k == "rewrap" || k == "lookup") && r.crPath != "<no-data>" {
+							res.Violate("c18:expiry:expired-token-accepted", fmt.Sprintf("%v: %s accepted an expired wrapping token", art, k), art)
+						}
+					}
+					if s2.Usable(tk) {
+						res.Violate("c18:expiry:expired-token-accepted", fmt.Sprintf("%v: the expired wrapping token is still accepted", art), art)
+					}
+				}
+				s2.Drain()
+				base := map[string]bool{}
+				for _, k := range st.baseKeys {
+					base[k] = true
+				}
+				var extra []string
+				for _, k := range c18TrackedKeys(s2) {
+					if !base[k] {
+						extra = append(extra, k)
+					}
+				}
+				if len(extra) > 0 {
+					res.Violate("c18:expiry:residue-in-storage", fmt.Sprintf("%v: after the wrapping token expired these token/lease/cubbyhole records remain: %v", art, extra), art)
+				}
+				res.Distinct("nontrivial", fmt.Sprintf("E|%s|%v", wk, pre))
+				s2.Close()
+			}
+		}
+	}
+	if os.Getenv("VERIF_PART") == "E" {
+		return
+	}
+
 	item := 0
 	wraps := []string{"secret"}
 	if vout.Thorough() {
